@@ -22,16 +22,16 @@ use serde::{Deserialize, Serialize};
 use std::collections::BTreeMap;
 use std::sync::Mutex;
 
-/// Iteration budgets. With an l1 part the solver's duality gap can close: 1e5 (quick: 5000).
+/// Iteration budgets. With an l1 part the solver's duality gap can close: 1e5 (quick: 1e4).
 /// Without one (penalty * l1_ratio == 0) the implementation's gap has no dual part (const = 0) and
 /// equals the primal objective, so on noisy targets it never falls below tol * ||y||^2 and the run
 /// ends on the cap whatever the budget (measured: 0.14 s / 0.54 s per such run at 1e5, which alone
-/// would cost more than the whole thorough budget): those runs get 2000 (quick: 200) and are judged
+/// would cost more than the whole thorough budget): those runs get 2000 (quick: 500) and are judged
 /// like any other run if they do converge.
 pub const MAX_ITER: u32 = 100_000;
-const MAX_ITER_QUICK: u32 = 5_000;
+const MAX_ITER_QUICK: u32 = 10_000;
 const MAX_ITER_NO_L1: u32 = 2_000;
-const MAX_ITER_NO_L1_QUICK: u32 = 200;
+const MAX_ITER_NO_L1_QUICK: u32 = 500;
 const PENALTIES: [f64; 5] = [0.0, 0.01, 0.1, 1.0, 10.0];
 const L1_RATIOS: [f64; 3] = [0.0, 0.5, 1.0];
 const TOLS: [f64; 2] = [1e-4, 1e-8];
@@ -371,12 +371,19 @@ fn run_fit(data: &Data, s: &Spec, viols: &mut Vec<Violation>, st: &mut Stats) {
         st.inc("judged_nontrivial_nonzero_coefficients");
     }
     let ysq: f64 = y.iter().flatten().map(|v| v * v).sum();
-    let p0 = ysq / (2.0 * n as f64) + 1e-300;
-    let eps = tl.c_obj * p0;
+    // operand magnitude of the residual y - Xw - b (README: float slack is scaled by the operands)
+    let mut mag2 = 1e-300;
+    for i in 0..n {
+        for tt in 0..t {
+            let m = y[i][tt].abs() + out.b[tt].abs() + (0..p).map(|j| (x[i][j] * out.w[j][tt]).abs()).sum::<f64>();
+            mag2 += m * m;
+        }
+    }
+    let eps = tl.c_obj * mag2 / (2.0 * n as f64);
 
     // ---- gap >= 0
-    if out.gap < -tl.c_gap * ysq.max(1e-300) {
-        viols.push(Violation::new(format!("{}.duality_gap.negative", s.est), format!("reported duality gap {} < 0 (||y||^2 = {})", out.gap, ysq), case_json()));
+    if out.gap < -tl.c_gap * mag2 {
+        viols.push(Violation::new(format!("{}.duality_gap.negative", s.est), format!("reported duality gap {} < 0 (||y||^2 = {}, operand magnitude {})", out.gap, ysq, mag2), case_json()));
     }
     let bound = out.gap.max(0.0) / n as f64 + eps;
 
@@ -393,7 +400,8 @@ fn run_fit(data: &Data, s: &Spec, viols: &mut Vec<Violation>, st: &mut Stats) {
     let b_is_ymean = s.intercept && (0..t).all(|tt| (out.b[tt] - ymean[tt]).abs() <= tl.c_mean * ymean[tt].abs().max(yrms));
     let xmean: Vec<f64> = (0..p).map(|j| x.iter().map(|r| r[j]).sum::<f64>() / n as f64).collect();
     let xw: Vec<f64> = (0..t).map(|tt| (0..p).map(|j| xmean[j] * out.w[j][tt]).sum::<f64>()).collect();
-    let offset_effect = xw.iter().any(|v| v.abs() > 1e-6 * yrms);
+    let xrms: Vec<f64> = (0..p).map(|j| (prob.col_sq(j) / n as f64).sqrt()).collect();
+    let offset_effect = (0..p).any(|j| xmean[j].abs() > 1e-6 * xrms[j]);
     // the gap bounds the true suboptimality (reference optimum from the harness's own solver)
     let pimpl = prob.objective(&out.w, &out.b);
     let pstar = refmodel::solve(&prob, s.intercept);
@@ -408,7 +416,8 @@ fn run_fit(data: &Data, s: &Spec, viols: &mut Vec<Violation>, st: &mut Stats) {
         }
     };
     // closed form of the known defect: the returned point is the minimiser with the intercept frozen at
-    // mean(y) (coefficients coordinate-wise optimal for that intercept) although mean(X).w != 0
+    // mean(y) (coefficients coordinate- / row-wise optimal for that intercept, which for this convex
+    // separable objective means optimal) on features whose column means are not all zero
     let narrow = (int_bad || global_bad) && !coef_bad && b_is_ymean && offset_effect;
     if s.intercept && offset_effect {
         st.inc("judged_with_intercept_on_offset_features");
@@ -425,7 +434,7 @@ fn run_fit(data: &Data, s: &Spec, viols: &mut Vec<Violation>, st: &mut Stats) {
         viols.push(Violation::new(
             format!("{}.intercept_is_target_mean_on_offset_features_not_joint_optimum", s.est),
             format!(
-                "intercept {:?} == mean(y) while mean(X).w = {:?} != 0 (column means {:?}): the point is optimal only for the frozen intercept (best coefficient perturbation gains {:e}); moving the intercept alone to {:?} lowers the objective by {:e}, the joint optimum lies {:e} lower; reported gap/n + eps = {:e} (gap {:e}, n_steps {}); w={:?}",
+                "intercept {:?} == mean(y) on features with non-zero column means (mean(X).w = {:?}, column means {:?}): the point is optimal only for the frozen intercept (best coefficient perturbation gains {:e}); moving the intercept alone to {:?} lowers the objective by {:e}, the joint optimum lies {:e} lower; reported gap/n + eps = {:e} (gap {:e}, n_steps {}); w={:?}",
                 out.b, xw, xmean, pert.d_coef, joint, pert.d_int, pstar.map_or(f64::NAN, |ps| pimpl - ps), bound, out.gap, out.n_steps, out.w
             ),
             case_json(),
@@ -611,23 +620,25 @@ fn main() {
     ctx.set_rule(
         "cases = (design of the catalogue, per-column (offset, scale) image, variant, float type, estimator, target columns, penalty, l1_ratio, intercept, tol). \
          Catalogue: full-factorial and fractional lattice designs with n in {4,6,9,12}, p in {1,2,3} (ids in coverage.designs), each column centred and mapped to (z + offset) * scale with \
-         offset in {0, 5, -100} lattice units and scale in {1e-3, 1, 1e3}: every column sees every (offset, scale) pair (p = 1: all 9; p >= 2: the 9 'same for all columns' images + 8 per column with the other columns at (0, 1); thorough additionally the full 9^p cross product for p = 2); \
+         offset in {0, 5, -100} lattice units and scale in {1e-3, 1, 1e3}: every column sees every (offset, scale) pair (p = 1: all 9; p >= 2: the 9 'same for all columns' images, and for the designs marked per_column in coverage.image_modes additionally 8 per column with the other columns at (0, 1)); \
          variants: an appended constant column (0, 1 or 5000) and an appended duplicate of column 0, run only with penalty > 0 and l1_ratio < 1; targets = fixed linear function of the centred lattice coordinates + constant + fixed noise table, 3 columns. \
-         Estimators: OLS (each target column, intercept on / off), ElasticNet (single target columns), MultiTaskElasticNet (first 1..3 target columns); grid penalty {0,.01,.1,1,10} x l1_ratio {0,.5,1} x intercept {on,off} x tol {1e-4,1e-8}, max_iterations 1e5; f32 and f64. \
+         plus 'even_targets' members (integer targets that are an even function of column 0, so column 0 is exactly orthogonal to them). \
+         Estimators: OLS (each target column, intercept on / off), ElasticNet (single target columns), MultiTaskElasticNet (first 1..3 target columns; quick: all 3); grid penalty {0,.01,.1,1,10} x l1_ratio {0,.5,1} x intercept {on,off} x tol {1e-4,1e-8}; \
+         max_iterations 1e5 (quick 1e4) when penalty*l1_ratio > 0, 2000 (quick 500) when penalty*l1_ratio = 0 (the implementation's gap then equals the primal objective and never closes on noisy targets); f32 and f64. \
          Every member is run. evaluations = fits; a fit that ends on the iteration cap is counted in not_converged_iteration_cap and not judged (except on mean-zero orthogonal designs with an l1 part, where ending on the cap is itself a violation); \
          non-trivial = judged elastic-net fit with at least one non-zero coefficient, or OLS fit with a non-zero residual.",
     );
     ctx.assume("documented objective P(w,b) = 1/(2n) ||Y - XW - 1b'||_F^2 + penalty*l1_ratio*sum_j ||W_j||_2 + penalty*(1-l1_ratio)/2 ||W||_F^2 (single target: ||W_j||_2 = |w_j|), evaluated in plain f64 on the numbers as rounded to the subject's float type");
-    ctx.assume("the solver's internal objective is n*P, so the bound used is reported_gap / n; elastic net: P(w) - P(w') <= gap/n + eps for every tested w', eps = 1e-9 (f64) / 1e-4 (f32) x ||y||^2/(2n)");
-    ctx.assume("tested perturbations: every coefficient entry and every intercept +- 10^k (k = -6..0) x rms(y)/rms(x_j) (intercept: x rms(y)); the exact minimiser of every coefficient row (block soft-threshold) and of the intercepts with everything else fixed (this equals the decrease implied by the KKT residual g^2/2a); objective differences are computed cancellation-free from the residual");
-    ctx.assume("reported gap >= -1e-12 (f64) / -1e-5 (f32) x ||y||^2");
+    ctx.assume("the solver's internal objective is n*P, so the bound used is reported_gap / n; elastic net: P(w) - P(w') <= gap/n + eps for every tested w', eps = 1e-9 (f64) / 1e-4 (f32) x M/(2n), M = sum_it (|y_it| + |b_t| + sum_j |x_ij w_jt|)^2 = operand magnitude of the squared residual");
+    ctx.assume("tested perturbations: every coefficient entry and every intercept +- 10^k (k = -6..0) x rms(y)/rms(x_j) (intercept: x rms(y)); the exact minimiser of every coefficient row (block soft-threshold) and of the intercepts with everything else fixed (for a zero row or a row that keeps its sign this equals the decrease implied by the KKT sub-gradient residual, g^2/2a); objective differences are computed cancellation-free from the residual");
+    ctx.assume("reported gap >= -1e-12 (f64) / -1e-4 (f32) x M");
     ctx.assume("global cross-check: P(returned) - P* <= gap/n + eps with P* from the harness's own f64 block coordinate descent on the centred problem (<= 20000 sweeps, accepted only when its own KKT-implied decrease is < 1e-14 x ||y||^2/2n, otherwise counted in global_check_skipped_reference_unconverged)");
     ctx.assume("l1 threshold: a non-zero coefficient row j with ||x_j'(R + x_j w_j)|| < n*penalty*l1_ratio - margin is a violation; margin = (10*tol + 100*c_obj) x (threshold + sum_k |x_j.x_k| ||w_k|| + ||x_j'Y||); inside the margin = indeterminate (counted)");
-    ctx.assume("OLS: |x_j.r| <= c x ||x_j|| x S and |1.r| <= c x sqrt(n) x S with S = ||y|| + sum_k ||x_k|| |beta_k| + sqrt(n)|b| (backward-error scale of a least-squares solve), c = 1e-8 (f64) / 1e-4 (f32); SSE ladder slack (c S)^2; SSE <= reference minimum (normal equations on standardised centred columns, Gaussian elimination) + c S^2");
+    ctx.assume("OLS: |x_j.r| <= c x ||x_j|| x S and |1.r| <= c x sqrt(n) x S with S = ||y|| + sum_k ||x_k|| |beta_k| + sqrt(n)|b| (backward-error scale of a least-squares solve), c = 1e-8 (f64) / 1e-5 (f32); SSE ladder slack (c S)^2; SSE <= reference minimum (normal equations on standardised centred columns, Gaussian elimination) + c S^2");
     ctx.assume("predict == X w + b within 1e-12 (f64) / 1e-5 (f32) x (sum |x_ij w_j| + |b|)");
     ctx.assume("domain: [X | 1 if intercept] has full column rank (lvmc_core::refmath::rank on unit-norm columns, pivot tolerance 1e-7) — otherwise the case is run only with penalty > 0 and l1_ratio < 1 and counted out of domain else");
-    ctx.assume("'mean-zero orthogonal design' (where the iteration cap is a violation): |mean_j| <= 1e-6 rms_j and |x_j.x_k| <= 1e-6 ||x_j|| ||x_k||, l1 part > 0, f64 or tol >= 1e-4");
-    ctx.assume("narrow signature *.intercept_is_target_mean_on_offset_features_not_joint_optimum is assigned only when the intercept equals mean(y) (1e-12 / 1e-5 relative), mean(X).w != 0, the intercept move is the only perturbation that beats the gap and the coefficients are optimal for the frozen intercept");
+    ctx.assume("'mean-zero orthogonal design' (where the iteration cap is a violation): |mean_j| <= 1e-6 rms_j and |x_j.x_k| <= 1e-6 ||x_j|| ||x_k||, l1 part > 0, f64 — or f32 with tol >= 1e-4 and all non-zero |x_ij| in [1e-2, 1e2] (beyond that the f32 gap cannot resolve tol x ||y||^2)");
+    ctx.assume("narrow signature *.intercept_is_target_mean_on_offset_features_not_joint_optimum is assigned only when the intercept equals mean(y) (1e-12 / 1e-5 relative), some column mean is non-zero (> 1e-6 rms), no coefficient / row perturbation beats the gap (the coefficients are optimal for the frozen intercept) and the intercept move or the joint reference optimum does");
 
     let thorough = ctx.thorough();
     let datas = catalogue::enumerate(thorough);
@@ -643,6 +654,10 @@ fn main() {
     design_ids.sort();
     design_ids.dedup();
     ctx.extra("designs", json!(design_ids));
+    ctx.extra(
+        "image_modes",
+        json!(catalogue::designs().iter().map(|d| (d.id.to_string(), format!("{:?}", if thorough { d.thorough } else { d.quick }))).collect::<BTreeMap<String, String>>()),
+    );
     ctx.extra("data_sets_enumerated", json!(datas.len()));
     let expected: u64 = tasks.iter().map(|t| specs_for(&ctx, t).len() as u64).sum();
     ctx.extra("fits_enumerated", json!(expected));
